@@ -37,7 +37,7 @@ func xgFloat(r *Rng) float64 {
 	case 1:
 		return float64(r.Intn(180) - 90)
 	case 2:
-		return -float64(r.Intn(1000)) / 7
+		return -float64(1+r.Intn(1000)) / 7 // never -0: the text-level models cannot see that -0 == 0
 	case 3:
 		return 1e-7 * float64(1+r.Intn(1000))
 	}
